@@ -9,6 +9,7 @@ import (
 	"path/filepath"
 	"reflect"
 	"sort"
+	"strings"
 	"unicode/utf8"
 
 	"github.com/KevoDB/kevo/pkg/config"
@@ -215,6 +216,12 @@ func runC20(c *core.Ctx, res *core.Result) {
 	preExisting := r.Chance(50)
 	if preExisting {
 		config.NewDefaultConfig(dir).SaveManifest(dir)
+	}
+	staleTmp := r.Chance(30)
+	if staleTmp {
+		// what a save that died between the temp write and the rename leaves behind
+		junk := []byte(strings.Repeat("{\"stale\": \"left over by an interrupted save\"} ", r.Range(1, 60)))
+		os.WriteFile(filepath.Join(dir, config.DefaultManifestFileName+".tmp"), junk, 0644)
 	}
 	before := snapshotDir(dir)
 	serr := cfg.SaveManifest(dir)
